@@ -432,7 +432,21 @@ def _check_wiring(R, F, CG):
                      "RpcAuthMiddleware::new is given %s, not the deny list %s" % (o, dn),
                      sample={"rule": "WIRE deny list", "arg": o})
     R.ob(found, "WIRE", f.where(), "WIRE|server|middleware-new", "RpcAuthMiddleware::new is not called from the rpc middleware layer")
-    # new(): denylist field is built from the argument
+    # new(): the denylist field is built from the argument (not from a constant / empty set)
+    mnew = [x for x in F.fns.values() if x.name.endswith("RpcAuthMiddleware::<S>::new")]
+    for g in mnew:
+        okd = False
+        for b in g.blocks:
+            for st_ in b["stmts"]:
+                if st_["k"] == "assign" and st_["rv"]["k"] == "agg" and (st_["rv"].get("adt") or "").endswith("RpcAuthMiddleware"):
+                    from terms import rvalue_origin
+                    t = rvalue_origin(g, st_["rv"], 0, frozenset(), 30)
+                    m = dict(zip(t[3], t[2]))
+                    dl = m.get("denylist")
+                    from wire import leaf_params
+                    okd = dl is not None and any(p[1] == 2 for p in leaf_params(dl, g.name)) and mentions(dl, "collect")
+        R.ob(okd, "WIRE", g.where(), "WIRE|middleware.new|denylist", "RpcAuthMiddleware::new does not build its deny list from the `denylist` argument",
+             sample={"rule": "WIRE", "sink": "RpcAuthMiddleware.denylist", "origin": "denylist argument, collected"})
     # start(): validate_config before start_rpc_server, result propagated
     st = [x for x in F.fns.values() if x.name.startswith("server::start::start") and x.kind == "coroutine"]
     R.floor("start_body", len(st), 1)
